@@ -19,6 +19,8 @@ pub const REQUIRED: &[&str] = &[
     "FittedTfIdfVectorizer",
     "function_tokenizer",
     "regex_tokenizer",
+    "cased_regex_with_lowercasing",
+    "cased_regex_without_lowercasing",
 ];
 
 #[derive(Debug, Clone, Serialize, Deserialize)]
@@ -56,7 +58,7 @@ pub fn strategy(t: Tier) -> impl Strategy<Value = TextCase> {
         0u16..4,
         proptest::collection::vec(doc(), 1..=max_docs),
         proptest::collection::vec(doc(), 1..=3),
-        proptest::collection::vec(any::<u16>(), 12),
+        proptest::collection::vec(any::<u16>(), 14),
     )
         .prop_map(|(kind, docs, qdocs, knobs)| TextCase { kind, docs, qdocs, knobs })
 }
@@ -75,19 +77,16 @@ enum Tk {
     FunctionThenRegex,
 }
 
-struct Built {
-    params: CountVectorizerParams,
-    tk: Tk,
-}
-
-fn build(k: &mut Knobs, obs: &mut Obs, allow_invalid: bool) -> Built {
-    let tk = match k.pick(8) {
+/// Tokenizer choice from the primary dial, the history flag and (for custom expressions) a later dial that selects
+/// expressions whose matches depend on letter case.
+fn choose_tk(primary: usize, hist: bool, sub: usize, allow_invalid: bool) -> Tk {
+    match primary {
         0 | 1 | 2 => Tk::DefaultRegex,
-        3 => Tk::Regex(r"\w+"),
-        4 => Tk::Regex(r"[a-z]+"),
+        3 => Tk::Regex([r"\w+", r"[A-Z]\w+", r"[A-Z][a-z]+|[a-z]{3,}", r"\b[A-Z]{2,}\b"][sub.min(3)]),
+        4 => Tk::Regex([r"[a-z]+", r"\b[a-z]{2,}\b", r"[A-Z]\w+", r"\b[a-z]\w*\b"][sub.min(3)]),
         5 | 6 => Tk::Function,
         _ => {
-            if k.flag() {
+            if hist {
                 Tk::FunctionThenRegex
             } else if allow_invalid {
                 Tk::Regex("[")
@@ -95,18 +94,24 @@ fn build(k: &mut Knobs, obs: &mut Obs, allow_invalid: bool) -> Built {
                 Tk::Regex(r"\b\w+\b")
             }
         }
-    };
-    let mut p = CountVectorizer::params();
-    match tk {
-        Tk::DefaultRegex => {}
-        Tk::Regex(r) => p = p.tokenizer(Tokenizer::Regex(r.to_string())),
-        Tk::Function => p = p.tokenizer(Tokenizer::Function(tok)),
-        Tk::FunctionThenRegex => p = p.tokenizer(Tokenizer::Function(tok)).tokenizer(Tokenizer::Regex(r"\w+".to_string())),
     }
-    obs.class_if(matches!(tk, Tk::Function), "function_tokenizer");
-    obs.class_if(matches!(tk, Tk::DefaultRegex | Tk::Regex(_)), "regex_tokenizer");
-    obs.class_if(matches!(tk, Tk::FunctionThenRegex), "function_then_regex_history");
-    p = p.convert_to_lowercase(!k.rare()).normalize(!k.rare());
+}
+
+fn cased(tk: Tk) -> bool {
+    matches!(tk, Tk::Regex(r) if r.contains("A-Z") || r.contains("a-z"))
+}
+
+struct Built {
+    params: CountVectorizerParams,
+    tk: Tk,
+}
+
+fn build(k: &mut Knobs, obs: &mut Obs, allow_invalid: bool) -> Built {
+    let primary = k.pick(8);
+    let hist = if primary == 7 { k.flag() } else { false };
+    let mut p = CountVectorizer::params();
+    let lower = !k.rare();
+    p = p.convert_to_lowercase(lower).normalize(!k.rare());
     let ranges: &[(usize, usize)] = if allow_invalid { &[(1, 1), (1, 2), (2, 2), (1, 3), (0, 1), (2, 1)] } else { &[(1, 1), (1, 2), (2, 2), (1, 3)] };
     let (a, b) = ranges[k.pick(ranges.len())];
     p = p.n_gram_range(a, b);
@@ -132,6 +137,19 @@ fn build(k: &mut Knobs, obs: &mut Obs, allow_invalid: bool) -> Built {
         p = p.max_features(Some(1 + k.pick(4)));
         obs.class("with_max_features");
     }
+    // the tokenizer is chosen last (a later dial picks among case-dependent expressions); setters are independent
+    let tk = choose_tk(primary, hist, k.pick(4), allow_invalid);
+    match tk {
+        Tk::DefaultRegex => {}
+        Tk::Regex(r) => p = p.tokenizer(Tokenizer::Regex(r.to_string())),
+        Tk::Function => p = p.tokenizer(Tokenizer::Function(tok)),
+        Tk::FunctionThenRegex => p = p.tokenizer(Tokenizer::Function(tok)).tokenizer(Tokenizer::Regex(r"\w+".to_string())),
+    }
+    obs.class_if(matches!(tk, Tk::Function), "function_tokenizer");
+    obs.class_if(matches!(tk, Tk::DefaultRegex | Tk::Regex(_)), "regex_tokenizer");
+    obs.class_if(matches!(tk, Tk::FunctionThenRegex), "function_then_regex_history");
+    obs.class_if(cased(tk) && lower, "cased_regex_with_lowercasing");
+    obs.class_if(cased(tk) && !lower, "cased_regex_without_lowercasing");
     Built { params: p, tk }
 }
 
@@ -427,32 +445,11 @@ fn count_fitted(obs: &mut Obs, k: &mut Knobs, x: &Array1<String>, q: &Array1<Str
 /// enumeration sub-check.
 fn tfidf_builder(k: &mut Knobs, obs: &mut Obs, allow_invalid: bool) -> (TfIdfVectorizer, Tk) {
     // mirror `build` through TfIdfVectorizer's own builder methods
-    let tk = match k.pick(8) {
-        0 | 1 | 2 => Tk::DefaultRegex,
-        3 => Tk::Regex(r"\w+"),
-        4 => Tk::Regex(r"[a-z]+"),
-        5 | 6 => Tk::Function,
-        _ => {
-            if k.flag() {
-                Tk::FunctionThenRegex
-            } else if allow_invalid {
-                Tk::Regex("[")
-            } else {
-                Tk::Regex(r"\b\w+\b")
-            }
-        }
-    };
+    let primary = k.pick(8);
+    let hist = if primary == 7 { k.flag() } else { false };
     let mut p = TfIdfVectorizer::default();
-    match tk {
-        Tk::DefaultRegex => {}
-        Tk::Regex(r) => p = p.tokenizer(Tokenizer::Regex(r.to_string())),
-        Tk::Function => p = p.tokenizer(Tokenizer::Function(tok)),
-        Tk::FunctionThenRegex => p = p.tokenizer(Tokenizer::Function(tok)).tokenizer(Tokenizer::Regex(r"\w+".to_string())),
-    }
-    obs.class_if(matches!(tk, Tk::Function), "function_tokenizer");
-    obs.class_if(matches!(tk, Tk::DefaultRegex | Tk::Regex(_)), "regex_tokenizer");
-    obs.class_if(matches!(tk, Tk::FunctionThenRegex), "function_then_regex_history");
-    p = p.convert_to_lowercase(!k.rare()).normalize(!k.rare());
+    let lower = !k.rare();
+    p = p.convert_to_lowercase(lower).normalize(!k.rare());
     let ranges: &[(usize, usize)] = if allow_invalid { &[(1, 1), (1, 2), (2, 2), (0, 1), (2, 1)] } else { &[(1, 1), (1, 2), (2, 2)] };
     let (a, b) = ranges[k.pick(ranges.len())];
     p = p.n_gram_range(a, b);
@@ -467,6 +464,19 @@ fn tfidf_builder(k: &mut Knobs, obs: &mut Obs, allow_invalid: bool) -> (TfIdfVec
         p = p.max_features(Some(1 + k.pick(4)));
         obs.class("with_max_features");
     }
+    // the tokenizer is chosen last (a later dial picks among case-dependent expressions); setters are independent
+    let tk = choose_tk(primary, hist, k.pick(4), allow_invalid);
+    match tk {
+        Tk::DefaultRegex => {}
+        Tk::Regex(r) => p = p.tokenizer(Tokenizer::Regex(r.to_string())),
+        Tk::Function => p = p.tokenizer(Tokenizer::Function(tok)),
+        Tk::FunctionThenRegex => p = p.tokenizer(Tokenizer::Function(tok)).tokenizer(Tokenizer::Regex(r"\w+".to_string())),
+    }
+    obs.class_if(matches!(tk, Tk::Function), "function_tokenizer");
+    obs.class_if(matches!(tk, Tk::DefaultRegex | Tk::Regex(_)), "regex_tokenizer");
+    obs.class_if(matches!(tk, Tk::FunctionThenRegex), "function_then_regex_history");
+    obs.class_if(cased(tk) && lower, "cased_regex_with_lowercasing");
+    obs.class_if(cased(tk) && !lower, "cased_regex_without_lowercasing");
     (p, tk)
 }
 
